@@ -112,8 +112,8 @@ def configs(tier: str) -> List[Cfg]:
     singles = ["e", "a", "b", "aa", "ab", "ba", "bb"]
     sets_ = [(s,) for s in singles] + list(combinations(["e", "a", "b", "ab"], 2))
     if tier == "quick":
-        extras = ["", "+inf1"]
-        stats_list = [()]
+        extras = ["", "+inf1", "+sym", "+norm"]
+        stats_list = [(), ("a", "ab")]
         dbs = DBS
     else:
         extras = ["", "+inf1", "+inf2", "+sym", "+norm"]
